@@ -8,13 +8,13 @@ out=detect/RESULTS.md
 tmp=$(mktemp -d)
 one() { # <id> <diff>
   id=$1; d=$2
-  name=$(basename "$d"); case "$d" in seeded/*) name="seeded/$id/patch.diff";; esac
+  name=$(basename "$d"); case "$d" in seeded/*) name="$d";; esac
   res=$(./tools/detect.sh "$id" "$d" 2>&1 | grep -E "^(DETECTED|NOT DETECTED)|^  key=" | sort -u | head -6 | tr '\n' ' ')
   echo "| $id | $name | $res |"
 }
 export -f one
 for id in $ids; do
-  for d in detect/$id/*.diff seeded/$id/patch.diff; do [ -f "$d" ] && echo "$id $d"; done
+  for d in detect/$id/*.diff seeded/$id*/patch.diff; do [ -f "$d" ] && echo "$id $d"; done
 done | xargs -P "${DETECT_PAR:-4}" -L 1 bash -c 'one $0 $1' | tee "$tmp/rows"
 { echo "# Detection runs (tools/detect_all.sh, $(date -u +%FT%TZ))"; echo
   echo "Every row: the property's check run (quick tier) against /repo plus the diff, through the build overlay."
